@@ -24,23 +24,29 @@ CutIdx(st, drop, keep) ==
       c == {i \in DOMAIN st : M(st[i]) /\ \E j \in (i + 1)..Len(st) : ~M(st[j])}
   IN IF c = {} THEN 0 ELSE CHOOSE i \in c : \A j \in c : j <= i
 Cut(st, drop, keep) == SubSeq(st, CutIdx(st, drop, keep) + 1, Len(st))
-PrunedBag(bag, drop, keep) ==
-  LET T == {Cut(st, drop, keep) : st \in DOMAIN bag} IN
-  [t \in T |-> [k \in 1..NCols |-> FoldSet(LAMBDA st, acc : acc + bag[st][k], 0, {st \in DOMAIN bag : Cut(st, drop, keep) = t})]]
 Val(bag, st, k) == IF st \in DOMAIN bag THEN bag[st][k] ELSE 0
 SameBag(b1, b2) == \A st \in (DOMAIN b1) \cup (DOMAIN b2) : \A k \in 1..NCols : Val(b1, st, k) = Val(b2, st, k)
 HasFrame(st, S) == \E i \in DOMAIN st : st[i] \in S
 NoOpts == [focus |-> {}, ignore |-> {}, si |-> NCols, rel |-> FALSE]
-Kept(bag, o) == {st \in DOMAIN bag : (o.focus = {} \/ HasFrame(st, o.focus)) /\ ~HasFrame(st, o.ignore)}
+\* The session's profile: the merged bag keyed by the stacks AS MERGED, seen through the frame-dropping rules.
+\* (Pruning does not re-merge samples whose pruned stacks coincide, and the total adds the magnitude of every
+\* sample, so the sample granularity of the merged profile stays observable.)
+Prof(bag, drop, keep) == [bag |-> bag, drop |-> drop, keep |-> keep]
+NoProf == Prof(<<>>, {}, {})
+V(p, st) == Cut(st, p.drop, p.keep)
+Kept(p, o) == {st \in DOMAIN p.bag : (o.focus = {} \/ HasFrame(V(p, st), o.focus)) /\ ~HasFrame(V(p, st), o.ignore)}
 SumOver(S, f(_)) == FoldSet(LAMBDA st, acc : acc + f(st), 0, S)
-Flat(bag, o, fn) == SumOver({st \in Kept(bag, o) : st[1] = fn}, LAMBDA st : bag[st][o.si])
-Cum(bag, o, fn) == SumOver({st \in Kept(bag, o) : HasFrame(st, {fn})}, LAMBDA st : bag[st][o.si])
+Flat(p, o, fn) == SumOver({st \in Kept(p, o) : V(p, st)[1] = fn}, LAMBDA st : p.bag[st][o.si])
+Cum(p, o, fn) == SumOver({st \in Kept(p, o) : HasFrame(V(p, st), {fn})}, LAMBDA st : p.bag[st][o.si])
 \* the total is the sum of the MAGNITUDES of the (merged) samples: with -base the differences count with their size
 Abs(x) == IF x < 0 THEN 0 - x ELSE x
-Total(bag, o) == SumOver(IF o.rel THEN Kept(bag, o) ELSE DOMAIN bag, LAMBDA st : Abs(bag[st][o.si]))
-FnsOf(bag) == UNION {{st[i] : i \in DOMAIN st} : st \in DOMAIN bag}
-TopRows(bag, o) == {[fn |-> f, flat |-> Flat(bag, o, f), cum |-> Cum(bag, o, f)] : f \in FnsOf(bag)}
-\* a traces report: the kept stacks with their value in the selected column (zero entries are not printed)
-TraceRows(bag, o) == {[stack |-> st, w |-> bag[st][o.si]] : st \in {s \in Kept(bag, o) : bag[s][o.si] # 0}}
+Total(p, o) == SumOver(IF o.rel THEN Kept(p, o) ELSE DOMAIN p.bag, LAMBDA st : Abs(p.bag[st][o.si]))
+FnsOf(p) == UNION {{V(p, st)[i] : i \in DOMAIN V(p, st)} : st \in DOMAIN p.bag}
+TopRows(p, o) == {[fn |-> f, flat |-> Flat(p, o, f), cum |-> Cum(p, o, f)] : f \in FnsOf(p)}
+\* a traces report: the kept stacks as seen, with their value in the selected column (zero entries are not printed)
+TraceRows(p, o) ==
+  LET T == {V(p, st) : st \in Kept(p, o)}
+      W(t) == SumOver({st \in Kept(p, o) : V(p, st) = t}, LAMBDA st : p.bag[st][o.si])
+  IN {[stack |-> t, w |-> W(t)] : t \in {x \in T : W(x) # 0}}
 
 =============================================================================
